@@ -431,10 +431,18 @@ def shrink(pair, problem, keep=lambda line: False, max_trials=400):
 
 
 def load_findings():
-    p = os.path.join(VERIF, "known_findings.json")
-    if not os.path.exists(p):
-        return {"findings": [], "fixed": []}
-    return json.load(open(p))
+    """known_findings.json plus the per-component files known_findings.d/*.json (same format)"""
+    res = {"findings": [], "fixed": []}
+    paths = [os.path.join(VERIF, "known_findings.json")]
+    d = os.path.join(VERIF, "known_findings.d")
+    if os.path.isdir(d):
+        paths += [os.path.join(d, f) for f in sorted(os.listdir(d)) if f.endswith(".json")]
+    for p in paths:
+        if os.path.exists(p):
+            obj = json.load(open(p))
+            res["findings"] += obj.get("findings", [])
+            res["fixed"] += obj.get("fixed", [])
+    return res
 
 
 def finding_matches(finding, problem):
